@@ -173,7 +173,9 @@ def _analyze_view(prefix, links, leaf="job"):
 
     """
     logger.info(f"Analyzing view prefix '{prefix}'...")
-    existing_paths = {os.path.join(p, leaf) for p in _find_all_links(prefix, leaf)}
+    existing_paths = {
+        os.path.normpath(os.path.join(p, leaf)) for p in _find_all_links(prefix, leaf)
+    }
     existing_tree = _build_tree(existing_paths)
     for path in links:
         _color_path(existing_tree, path.split(os.sep))
